@@ -281,7 +281,7 @@ def correspondence(ctx, model_ok=True):
                 failures.append({"what": "scenario '%s' prints %s (%s), expected %s" % (name, list(o[2]) if len(o) > 2 else o, o[0], expected),
                                  "program": src, "modules": mods, "expected": expected, "signature": "scenario " + name, "failing_input": True})
     # (d) which declaration a use refers to: expectation constructed from the rule
-    grid = resolution_grid()
+    grid = resolution_grid() + [p for nm in BUILTIN_NAMES for p in resolution_grid(nm)] + deep_nesting_programs()
     gres, _ = progs.run_programs(ctx.runner, [(n, src, {}) for n, src, _ in grid], {"gc": "default"}, tag="r")
     for (name, src, exp), r in zip(grid, gres):
         o = progs.canon_step(r)
@@ -293,7 +293,7 @@ def correspondence(ctx, model_ok=True):
             good = o[0] == "err" and o[1] == "NameError" and not o[2]
         if not good:
             failures.append({"what": "a use of a name does not refer to the innermost enclosing declaration that precedes it (%s): expected %s, observed %s"
-                                     % (name, exp, str(o)[:200]), "program": src, "expected_resolution": list(exp), "signature": "resolution " + name.split("/")[1],
+                                     % (name, exp, str(o)[:200]), "program": src, "expected_resolution": list(exp), "signature": "resolution " + (name.split("/")[1] if "/" in name else name.split(":")[0]),
                              "failing_input": True})
     # (b) reference interpreter
     sd = specdiff.diff(ctx, [(n, s, m) for n, s, m, _ in gen] + corpus + [(n, src, {}) for n, src, _ in grid] + [(n, src, mods) for n, src, mods, _ in MODULE_SCENARIOS], "C06", broken) if model_ok else {"failures": [], "compared": 0}
